@@ -80,6 +80,15 @@ def one_case(rng):
     if has_time:
         kw["time"] = float(tt)
     calls.append(dict(kind="samples", pop=p, has_time=1 if has_time else 0, t=tt, result=[int(u) for u in ts.samples(**kw)]))
+    # whole-sequence properties, on the same tables with coordinates mapped through a monotone map
+    cm = gen.CMap(rng.choice(["id", "third", "half", "big"]))
+    ts2 = gen.build_tables(a, cm).tree_sequence()
+    try:
+        mrt = int(ts2.max_root_time)
+    except ValueError:
+        mrt = -1
+    calls.append(dict(kind="ts_props", cmap=cm.kind, max_root_time=mrt, min_time=int(ts2.min_time), max_time=int(ts2.max_time),
+                      discrete_genome=1 if ts2.discrete_genome else 0, num_trees=int(ts2.num_trees)))
     return dict(ts=rec, calls=calls)
 
 
@@ -109,7 +118,8 @@ def run():
         chk.note_case(dict(ts=c["ts"], S=c["calls"][0]["samples"], A=c["calls"][0]["ancestors"]), len(c["calls"][0]["rows"]) >= 1)
         f = verdicts[c["id"]]
         if f:
-            chk.violation("trace rejected by Trace_Extras: %s %s" % (sorted(f), st["eval_errors"].get(c["id"], "")[-300:]), c)
+            chk.violation("trace rejected by Trace_Extras: %s %s" % (sorted(f), st["eval_errors"].get(c["id"], "")[-300:]), c,
+                          signature="max-root-time-counts-dead-branches" if set(f) == {"ts_props:max_root_time"} else None)
         else:
             chk.traces += 1
     chk.sample(dict(ts=cases[0]["ts"], link=cases[0]["calls"][0]))
